@@ -3,7 +3,7 @@ the path transmittance is the weight-averaged exponential of the per-point optic
 import math
 import numpy as np
 
-from mc import core, fixtures as fx
+from mc import core, fixtures as fx, rthist
 from mc.ref import rt, opac
 
 ID = 'C20'
@@ -185,6 +185,39 @@ def case_fn(case):
     return r
 
 
+# ---------------------------------------------------------------------------------------------
+# history phase (correlated-k mode): one live model, sequences of parameter updates vs fresh model
+# ---------------------------------------------------------------------------------------------
+HIST_ALPHABET = [['T', 700.0], ['T', 1900.0], ['planet_radius', 0.7], ['planet_mass', 2.0], ['H2O', 1e-6],
+                 ['H2O', 1e-2], ['CH4', 1e-3], ['He_H2', 0.6], ['atm_max_pressure', 1e5], ['atm_min_pressure', 1e1]]
+HIST_REDUCED = [['T', 700.0], ['T', 1900.0], ['H2O', 1e-2], ['atm_max_pressure', 1e5]]
+
+
+def hist_build(case):
+    fx.reset_caches()
+    c = {'mag': 'tau1', 'gw': [0.2, 0.5, 0.3], 'spread': 3.0, 'grids': case['grids']}
+    tabs = base_tables(c)
+    k = dict((mol, t[..., None] * gmult(c)[None, None, None, :]) for mol, t in tabs.items())
+    from taurex.cache import GlobalCache
+    from taurex.cache.ktablecache import KTableCache
+    import os
+    d = fx.fresh_dir('ktables')
+    for mol, kk in k.items():
+        fx.write_pickle_ktable(os.path.join(d, '%s.pickle' % mol), mol, grid_of(c, mol), TG, PG, kk, c['gw'])
+    GlobalCache()['xsec_interpolation'] = 'linear'
+    GlobalCache()['opacity_method'] = 'ktables'
+    KTableCache().set_ktable_path(d)
+    KTableCache().clear_cache()
+    return fx.build_model({'kind': case['kind'], 'N': 3, 'T': ['iso', 1200.0], 'ngauss': 2,
+                           'gases': [['H2O', ['const', 1e-4]], ['CH4', ['const', 3e-5]]], 'contribs': ['abs', 'ray']})
+
+
+def hist_fn(case):
+    r = core.R(case)
+    rthist.run_history(r, case['hist'], lambda: hist_build(case), 'ktables/%s/%s' % (case['kind'], case['grids']))
+    return r
+
+
 def explore(ctx):
     if ctx.tier == 'quick':
         cases = core.product_cases(DIMS, core=['gw', 'spread', 'kind', 'mag'], d=2)
@@ -192,4 +225,13 @@ def explore(ctx):
     else:
         cases = core.product_cases(DIMS, core=['gw', 'spread', 'kind', 'mag', 'N', 'T', 'contribs'], d=3)
         ctx.bounds.update(deviations=3, core='gw x spread x kind x mag x N x T x contribs')
-    ctx.run_cases('case_fn', cases)
+    ctx.run_cases('case_fn', cases, phase='inputs')
+    if ctx.tier == 'quick':
+        hs = rthist.histories(HIST_ALPHABET, 2, HIST_REDUCED, 3)
+        cfgs = [('transmission', 'same'), ('transmission', 'different')]
+    else:
+        hs = rthist.histories(HIST_ALPHABET, 3, HIST_REDUCED, 4)
+        cfgs = [(k, g) for k in ('transmission', 'emission') for g in ('same', 'different')]
+    hcases = [{'kind': k, 'grids': g, 'hist': h} for (k, g) in cfgs for h in hs]
+    ctx.bounds.update(histories=len(hcases), history_depth=2 if ctx.tier == 'quick' else 3)
+    ctx.run_cases('hist_fn', hcases, phase='histories')
